@@ -558,6 +558,196 @@ def gen(rng, tier, n):
     return out
 
 
+# ------------------------------------------------------------------------------------------
+# C03: records built through the public setters, TCP framing, legacy query builders
+# ------------------------------------------------------------------------------------------
+RESERVED = b'".;\\()@$'
+
+
+def esc_label(l, style="canon"):
+    out = bytearray()
+    for c in l:
+        if c < 0x20 or c > 0x7E:
+            out += b"\\%03d" % c
+        elif bytes([c]) in (b'"', b".", b";", b"\\", b"(", b")", b"@", b"$"):
+            out += b"\\" + bytes([c])
+        elif style == "ddd" and c != 0x30:
+            out += b"\\%03d" % c
+        else:
+            out.append(c)
+    return bytes(out)
+
+
+def text_name(labels, style="canon"):
+    t = b".".join(esc_label(l, style) for l in labels)
+    if style == "dot" and labels:
+        t += b"."
+    return t
+
+
+DT = {101: 1, 201: 6, 501: 6, 601: 6, 602: 6, 603: 5, 604: 5, 605: 5, 606: 5, 607: 5, 1201: 6, 1301: 7, 1302: 7, 1501: 4,
+      1502: 6, 1601: 11, 2401: 4, 2402: 3, 2403: 3, 2404: 5, 2405: 5, 2406: 5, 2407: 4, 2408: 6, 2409: 8, 2801: 2,
+      3302: 4, 3303: 4, 3304: 4, 3305: 6, 3501: 4, 3502: 4, 3503: 7, 3504: 7, 3505: 7, 3506: 6, 4101: 4, 4103: 3,
+      4104: 4, 4105: 10, 5201: 3, 5202: 3, 5203: 3, 5204: 8, 6401: 4, 6402: 6, 6403: 10, 6501: 4, 6502: 6, 6503: 10,
+      25601: 4, 25602: 4, 25603: 6, 25701: 3, 25702: 7, 25703: 9, 6553601: 4, 6553602: 8}
+KEYS = {1: [101], 2: [201], 5: [501], 6: [601, 602, 603, 604, 605, 606, 607], 12: [1201], 13: [1301, 1302], 15: [1501, 1502],
+        16: [1601], 24: [2401, 2402, 2403, 2404, 2405, 2406, 2407, 2408, 2409], 28: [2801], 33: [3302, 3303, 3304, 3305],
+        35: [3501, 3502, 3503, 3504, 3505, 3506], 41: [4101, 4103, 4104, 4105], 52: [5201, 5202, 5203, 5204],
+        64: [6401, 6402, 6403], 65: [6501, 6502, 6503], 256: [25601, 25602, 25603], 257: [25701, 25702, 25703],
+        65536: [6553601, 6553602]}
+
+
+def build_value(rng, key, names, big=False):
+    dt = DT[key]
+    if dt == 1:
+        return bytes(rng.randrange(256) for _ in range(4)).hex()
+    if dt == 2:
+        return bytes(rng.randrange(256) for _ in range(16)).hex()
+    if dt == 3:
+        return str(rng.choice([0, 1, 255, rng.randrange(256)]))
+    if dt == 4:
+        return str(rng.choice([0, 1, 65535, rng.randrange(65536)]))
+    if dt == 5:
+        return str(rng.choice([0, 1, 0x7FFFFFFF, 0xFFFFFFFF, rng.randrange(1 << 32)]))
+    if dt == 6:
+        if key == 25603:
+            return "s" + charstr(rng, m=rng.choice([1, 10, 40, 0]), printable=True).replace(b",", b"_").replace(b";", b"_").hex()
+        return "s" + names(rng).hex()
+    if dt == 7:
+        ln = rng.choice([0, 1, 5, 40, 255, 256]) if rng.random() < 0.2 else rng.choice([1, 5, 20])
+        return "s" + bytes(rng.randrange(0x21, 0x7F) for _ in range(ln)).hex()
+    if dt in (8, 9):
+        ln = rng.choice([0, 1, 16, 64]) if rng.random() < 0.2 else rng.choice([1, 16, 64])
+        return "b" + bytes(rng.randrange(256) for _ in range(ln)).hex()
+    if dt == 11:
+        n = rng.choice([1, 1, 2, 4])
+        lens = [rng.choice([0, 1, 20, 254, 255, 256, 300, 600] if rng.random() < 0.3 else [1, 20, 255 if big else 60]) for _ in range(n)]
+        return "a" + "|".join(bytes(rng.randrange(256) for _ in range(l)).hex() for l in lens)
+    if dt == 10:
+        n = rng.choice([0, 1, 2, 4])
+        codes = []
+        ents = []
+        for _ in range(n):
+            code = rng.choice([1, 3, 8, 10, 12, 15, 65001])
+            if codes and rng.random() < 0.3:
+                code = rng.choice(codes)
+            codes.append(code)
+            ents.append("%d:%s" % (code, bytes(rng.randrange(256) for _ in range(rng.choice([0, 1, 8, 30]))).hex()))
+        return "o" + "|".join(ents)
+    return "0"
+
+
+def build_case(rng, shape=None):
+    shape = shape or rng.choice(["small", "small", "small", "shared", "shared", "escapes", "big16k", "big64k", "odd"])
+    base = [rand_label(rng, rng.choice(["word", "host"])) for _ in range(rng.choice([1, 2, 3]))]
+    pool = [base, [rand_label(rng, "word")] + base, [rand_label(rng, "host")] + base]
+    if shape == "escapes":
+        pool += [[rand_label(rng, rng.choice(["weird", "bin"])) for _ in range(rng.choice([1, 2]))] + base,
+                 [rand_label(rng, "max"), rand_label(rng, "bin")]]
+
+    def names(rng, hostonly=False):
+        labels = rng.choice(pool)
+        if rng.random() < 0.25:
+            labels = [rand_label(rng, "host")] + list(labels)
+        if hostonly:
+            labels = [l for l in labels if all(ch in HOSTCH + b"*/." for ch in l)] or [b"x"]
+        style = "canon"
+        if shape in ("escapes", "odd") and rng.random() < 0.3:
+            style = rng.choice(["ddd", "dot"])
+        if shape == "odd" and rng.random() < 0.1:
+            return rng.choice([b".", b"", b"a..b", b"a\\", b"\\300", b"." + text_name(labels), b"x" * 64 + b".com"])
+        return text_name(labels, style)
+
+    units = []
+    qn = names(rng, hostonly=True)
+    units.append("q,%s,%d,%d" % (qn.hex(), rng.choice(KNOWN + [255]), rng.choice([1, 1, 1, 3, 255])))
+    if shape == "big16k":
+        nrr = rng.choice([70, 90])
+    elif shape == "big64k":
+        nrr = rng.choice([258, 270])
+    else:
+        nrr = rng.choice([0, 1, 2, 3, 5, 8])
+    have_opt = False
+    for i in range(nrr):
+        sect = rng.choice([1, 1, 2, 3])
+        if shape in ("big16k", "big64k"):
+            # bulk: TXT records with 255-octet strings, then names first seen beyond 16 KiB that are
+            # referenced again later
+            if i < nrr - 8:
+                t = 16
+                owner = text_name([b"bulk%d" % (i % 7)] + base)
+            else:
+                t = rng.choice([2, 5, 15, 1])
+                owner = text_name([b"late%d" % (i % 3)] + base)
+        else:
+            t = rng.choice([x for x in KNOWN] + [65536])
+            owner = names(rng, hostonly=rng.random() < 0.8)
+        cls = rng.choice([1, 1, 1, 3, 4, 254])
+        if t == 41:
+            if have_opt and rng.random() < 0.8:
+                t = 1
+            else:
+                have_opt = True
+                sect = 3
+                owner = b""
+                cls = 1
+        ttl = rng.choice([0, 1, 300, 0x7FFFFFFF, 0xFFFFFFFF]) if t != 41 else 0
+        fields = []
+        for key in KEYS.get(t, []):
+            if rng.random() < 0.03 and shape == "odd":
+                continue   # leave a key unset
+            if key == 6553601:
+                v = str(rng.choice(UNKNOWN_TYPES[1:]))
+            elif shape in ("big16k", "big64k") and key == 1601:
+                v = "a" + bytes(rng.randrange(256) for _ in range(255)).hex()
+            else:
+                v = build_value(rng, key, names, big=shape.startswith("big"))
+            fields.append("%d=%s" % (key, v))
+        units.append(",".join(["r", str(sect), owner.hex(), str(t), str(cls), str(ttl)] + fields))
+    rcode = rng.choice([0, 0, 0, 3, 16, 23]) if have_opt else rng.choice([0, 0, 3, 5])
+    head = "b:%d:%d:%d:%d" % (rng.randrange(65536), rng.choice([0, 1, 8, 9, 25, 127]), rng.choice([0, 0, 0, 1, 2, 4, 5]), rcode)
+    return head + "|" + ";".join(units)
+
+
+def query_case(rng):
+    seeds = seed_names()
+    r = rng.random()
+    if r < 0.25 and seeds:
+        name = rng.choice(seeds).split(b"\0")[0].replace(b"\n", b"")[:300]
+    elif r < 0.85:
+        name = text_name(rand_labels(rng, hostish=True), rng.choice(["canon", "canon", "dot", "ddd"]))
+    else:
+        name = rng.choice([b"", b".", b"a..b", b"a" * 64, b"\\", b"\\1", b"\\300.com", b"x." * 130, text_name(labels_of_len(rng, rng.choice([253, 254, 255, 256])))])
+    return "c:%d:%d:%d:%d:%d|%s" % (rng.choice([1, 1, 1, 3, 255, 0, 2]), rng.choice(KNOWN + [255, 0, 65535]), rng.randrange(65536),
+                                    rng.choice([0, 1, 1]), rng.choice([-1, 0, 0, 512, 1232, 4096, 65535, 65536, -5]), name.hex())
+
+
+def gen_c03(rng, tier, n):
+    """the C03 stream"""
+    out = []
+    big_budget = 3 if tier == "quick" else 40
+    while len(out) < n:
+        r = rng.random()
+        if r < 0.35:
+            d, _ = message(rng, "valid")
+            out.append(pcase(rng, d, 0))
+        elif r < 0.40:
+            d, m = message(rng, "valid")
+            out.append(pcase(rng, mutate(rng, d, m), 0))
+        elif r < 0.60:
+            d, _ = message(rng, "valid")
+            out.append("t:%d:%d|%s" % (rng.choice([0, 0, 1, 2, 3]), rng.choice([0, 0, 0, 1, 2, 7, 30, 10000]), d.hex()))
+        elif r < 0.90:
+            shape = rng.choice(["small", "small", "small", "shared", "shared", "escapes", "odd"])
+            if big_budget > 0 and rng.random() < 0.02:
+                shape = rng.choice(["big16k", "big16k", "big64k"])
+                big_budget -= 1
+            out.append(build_case(rng, shape))
+        else:
+            out.append(query_case(rng))
+    return out
+
+
 def gen_c04(rng, tier, n):
     """the C04 stream: parse flags 0 only, mostly-valid messages dominant, no legacy cases"""
     out = []
